@@ -1,5 +1,5 @@
 #!/usr/bin/env python3
-"""C15 -- filesystem confinement: documents cannot steer file access outside allowed directories (DESIGN.md 3.C15)."""
+"""C15 -- filesystem confinement: documents cannot steer file access outside allowed directories (DESIGN.md section 4, C15)."""
 import gzip
 import io
 import os
@@ -43,7 +43,7 @@ MANIFEST_ENTRY = {
             "the output directory. Observed: no other file is opened, nothing is created outside the output directory, "
             "existing files are not overwritten.",
     "note": "Trusted: Coq kernel, the POSIX path model, CPython's audit events.",
-    "design_ref": "DESIGN.md 3.C15",
+    "design_ref": "DESIGN.md section 4, C15",
 }
 
 WORKDIR = os.path.join(common.WORK, "c15")
